@@ -18,7 +18,7 @@ WS_WIDE = WS_BASIC + [' ', ' ', '  ']
 
 # colon-less words: checks that are not kind:match (behave as '!'); some carry quote characters at one
 # edge (a quoted string needs the same quote at BOTH ends of the word) or are made of the constant signs
-BAD_WORDS = ['foobar', 'role', 'r1', 'nocolon', '%(x)s', "'a", "b'", '"q', 'x"', "'", '"', "'a'b", '!@', '@!', '@@', '!!']
+BAD_WORDS = ['foobar', 'role', 'r1', 'nocolon', '%(x)s', '100%', '50%_quota', '%', 'a%b', '%s', '%(unclosed', "'a", "b'", '"q', 'x"', "'", '"', "'a'b", '!@', '@!', '@@', '!!']
 QUOTEY = ["'a", "b'", '"q', 'x"', "'", '"', "'a'b", "c'd"]
 
 
@@ -340,10 +340,16 @@ class LeafEnv:
     """
     ALL = ('role', 'generic', 'literal', 'bool', 'rule', 'path')
 
-    def __init__(self, kinds=('role',), offset=0):
+    def __init__(self, kinds=('role',), offset=0, upper=False):
         self.kinds = tuple(kinds)
         self.offset = offset
         self._back = {}
+        # ``upper``: the same leaves spelled with upper-case attribute / rule / key names - DIFFERENT checks
+        # (everything but role names and keywords is case-sensitive), controlled by their own keys
+        self.upper = upper
+
+    def _c(self, s):
+        return s.upper() if self.upper else s
 
     def kind(self, i):
         return self.kinds[(i + self.offset) % len(self.kinds)]
@@ -352,6 +358,9 @@ class LeafEnv:
         k = self.kind(i)
         t = {'role': 'role:r%d', 'generic': 'k%d:%%(t%d)s', 'literal': "'lit%d':%%(t%d)s", 'bool': 'True:%%(b%d)s',
              'rule': 'rule:n%d', 'path': 'a%d.b.c:v'}[k]
+        if self.upper:
+            t = {'role': 'role:R%d', 'generic': 'K%d:%%(T%d)s', 'literal': "'LIT%d':%%(T%d)s", 'bool': 'True:%%(B%d)s',
+                 'rule': 'rule:N%d', 'path': 'A%d.B.C:v'}[k]
         t = t % ((i, i) if t.count('%d') == 2 else (i,))
         self._back[t] = i
         return t
@@ -364,7 +373,7 @@ class LeafEnv:
 
     def rules(self, leaves):
         """extra rule definitions needed by rule: leaves"""
-        return {'n%d' % i: 'role:r%d' % i for i in leaves if self.kind(i) == 'rule'}
+        return {self._c('n%d' % i): 'role:r%d' % i for i in leaves if self.kind(i) == 'rule'}
 
     def env(self, asg, leaves):
         target, creds = {}, {'roles': []}
@@ -375,12 +384,12 @@ class LeafEnv:
                 if on:
                     creds['roles'].append('r%d' % i)
             elif k == 'generic':
-                creds['k%d' % i] = 'v'
-                target['t%d' % i] = 'v' if on else 'w'
+                creds[self._c('k%d' % i)] = 'v'
+                target[self._c('t%d' % i)] = 'v' if on else 'w'
             elif k == 'literal':
-                target['t%d' % i] = ('lit%d' % i) if on else 'other'
+                target[self._c('t%d' % i)] = (self._c('lit%d' % i)) if on else 'other'
             elif k == 'bool':
-                target['b%d' % i] = bool(on)
+                target[self._c('b%d' % i)] = bool(on)
             elif k == 'path':
-                creds['a%d' % i] = {'b': [{'c': 'x'}, {'c': 'v'}]} if on else {'b': [{'c': 'x'}]}
+                creds[self._c('a%d' % i)] = {self._c('b'): [{self._c('c'): 'x'}, {self._c('c'): 'v'}]} if on else {self._c('b'): [{self._c('c'): 'x'}]}
         return target, creds
